@@ -260,6 +260,14 @@ class Undef:
     def __repr__(s):
         return "undef"
 
+    def __reduce__(s):
+        # a singleton, also across the pickled parse cache (`v is UNDEF` is used everywhere)
+        return (_get_undef, ())
+
+
+def _get_undef():
+    return UNDEF
+
 
 UNDEF = Undef()
 
